@@ -86,7 +86,7 @@ func runC06(c *core.Ctx) {
 			c.Broken("C06-SINGLE", e.key, "entry point not found")
 			continue
 		}
-		ps, err := c04Paths(c, e.fn)
+		ps, err := c04PathsOpt(c, e.fn, true)
 		pos := c.Prog.Pos(e.fn.Pos())
 		if err != nil {
 			c.Unknown("C06-SINGLE", e.key, pos, err.Error())
@@ -281,19 +281,7 @@ func emitRule(c *core.Ctx, name string, fn *ssa.Function, sl *ssa.Slice, raw boo
 	}
 	// the buffer it is appended to is the 6-octet header chain
 	hdr, _ := headerOf(fn)
-	depth := 0
-	cur := part.Call.Args[0]
-	for {
-		call, ok := cur.(*ssa.Call)
-		if !ok {
-			break
-		}
-		if b, ok := call.Call.Value.(*ssa.Builtin); !ok || b.Name() != "append" {
-			break
-		}
-		depth++
-		cur = call.Call.Args[0]
-	}
+	depth := headerOctetsBefore(part)
 	okHdr := depth == 6 && len(hdr) == 6
 	// the part is appended to the result
 	emitted := false
@@ -306,7 +294,7 @@ func emitRule(c *core.Ctx, name string, fn *ssa.Function, sl *ssa.Slice, raw boo
 		}
 	}
 	c.Decide(okHdr && emitted, "C06-COVER", name+"#emit", c.Prog.Pos(part.Pos()), "payload appended unmodified after the 6-octet header, part appended to the result",
-		fmt.Sprintf("the payload is not appended directly after the six header octets (%d appends before it) or the part is not appended to the result (%v)", depth, emitted))
+		fmt.Sprintf("the payload is not appended directly after the six header octets (%d header octets before it) or the part is not appended to the result (%v)", depth, emitted))
 }
 
 var _ = sort.Strings
